@@ -233,7 +233,17 @@ func main() {
 			}
 			json.Unmarshal(line, &probe)
 			var c Case
-			if probe.Mode == "crash" {
+			if probe.Mode == "big" {
+				var bc BigCase
+				if jerr := json.Unmarshal(line, &bc); jerr != nil {
+					fmt.Fprintln(out, `{"name":"?","note":"bad-case"}`)
+				} else {
+					r := runBig(bc)
+					b, _ := json.Marshal(r)
+					out.Write(b)
+					out.WriteByte('\n')
+				}
+			} else if probe.Mode == "crash" {
 				var cc CrashCase
 				if jerr := json.Unmarshal(line, &cc); jerr != nil {
 					fmt.Fprintln(out, `{"name":"?","note":"bad-case"}`)
